@@ -139,6 +139,23 @@ def run(ctx):
         n_ops = 1 + H.draw(10 if ctx.tier == "quick" else 30)
         ops = []
         for step in range(n_ops):
+            if H.draw(6) == 0 and w.rep_kind in ("tree", "ge", "sge"):
+                # F13 (history), unjudged: ANOTHER decider with a different limit works on the same grammar object in between
+                # (a depth sweep, an initialiser, a second search); nothing of it may show at this run's limit
+                from geneticengine.representations.tree.initializations import MaxDepthDecider
+                from geneticengine.representations.tree.treebased import TreeBasedRepresentation
+                from ..seams import SimRandom
+
+                other_limit = H.pick([d + 1, d + 2, d + 4, max(lm, rm), max(lm, rm) + 1])
+                rnd0 = SimRandom(ctx, "uniform", name="history", log=False)
+                rnd0.op_cap = 5000
+                try:
+                    TreeBasedRepresentation(w.grammar, MaxDepthDecider(rnd0, w.grammar, other_limit)).create_genotype(rnd0)
+                except BaseException as e:
+                    if isinstance(e, KeyboardInterrupt):
+                        raise
+                ctx.faults["carry_over"] += 1
+                ctx.stat("history:other-depth-limit-on-the-same-grammar")
             d0 = w.random.draws
             res = w.random_op()
             ops.append((res.kind,) + tuple(res.args) + (("ok",) if res.ok else (res.error,)))
